@@ -67,6 +67,7 @@ type result struct {
 	Wipes      int              `json:"wipes"`
 	Races      int              `json:"races"` // polls whose two statements had a committed registration in between
 	Refetches  int              `json:"refetches"`
+	Restarts   int              `json:"restarts"` // restarts of the server / client module on its database
 	WallMs     int64            `json:"wall_ms"`
 }
 
@@ -83,6 +84,34 @@ type lab struct {
 	srv, cli *node
 	ad       *adapter
 	ppl      *people
+	defDir   string
+}
+
+// restartServer stops the server's discovery module and starts a NEW module instance on the same storage engine
+// (the same database): what a restart of the node process is for the discovery engine (Shutdown; New, Configure, Start).
+func (l *lab) restartServer() error {
+	if err := l.srv.module.Shutdown(); err != nil {
+		return err
+	}
+	if err := l.srv.start(l.defDir, true, nil); err != nil {
+		return fmt.Errorf("the server module does not start on its own database: %w", err)
+	}
+	l.ad.wrapper = &discoserver.Wrapper{Server: l.srv.module}
+	if l.ad.sabotage == "restart-reinit" {
+		// self-test of the oracles: the HARNESS does what a defective start-up would do
+		return l.srv.db.Exec("UPDATE discovery_service SET seed = '', last_lamport_timestamp = 0").Error
+	}
+	return nil
+}
+
+func (l *lab) restartClient() error {
+	if err := l.cli.module.Shutdown(); err != nil {
+		return err
+	}
+	if err := l.cli.start(l.defDir, false, l.ad); err != nil {
+		return fmt.Errorf("the client module does not start on its own database: %w", err)
+	}
+	return nil
 }
 
 func newLab(t *testing.T, defDir string, ppl *people) (*lab, error) {
@@ -95,7 +124,7 @@ func newLab(t *testing.T, defDir string, ppl *people) (*lab, error) {
 	if err != nil {
 		return nil, err
 	}
-	return &lab{srv: srv, cli: cli, ad: ad, ppl: ppl}, nil
+	return &lab{srv: srv, cli: cli, ad: ad, ppl: ppl, defDir: defDir}, nil
 }
 
 // ---------------------------------------------------------------------------------------------- run
@@ -121,21 +150,23 @@ type getInfo struct {
 }
 
 type run struct {
-	l        *lab
-	in       *input
-	res      *result
-	sched    *gate.Sched
-	ctx      context.Context
-	stepNo   int
-	seeds    map[string]int        // server seed -> epoch number
-	known    map[string]*submitted // raw -> what the harness knows about an accepted presentation
-	shortExp []int64
-	ticked   bool
-	hasTick  bool
-	maxTs    map[string]int // per seed: highest timestamp handed out
-	creds    map[string]string
-	credsKey map[string]string
-	otherVC  map[string]string
+	l                 *lab
+	in                *input
+	res               *result
+	sched             *gate.Sched
+	ctx               context.Context
+	stepNo            int
+	seeds             map[string]int        // server seed -> epoch number
+	known             map[string]*submitted // raw -> what the harness knows about an accepted presentation
+	shortExp          []int64
+	ticked            bool
+	hasTick           bool
+	maxTs             map[string]int // per seed: highest timestamp handed out
+	lastTs            int            // highest timestamp handed out since the server last lost its database (ServerReset)
+	restartedSinceAdd bool           // the server process was restarted after it handed out lastTs
+	creds             map[string]string
+	credsKey          map[string]string
+	otherVC           map[string]string
 	// poll in flight
 	pollPos string
 	armed   atomic.Bool
@@ -722,7 +753,18 @@ func (r *run) doSubmit(st step) error {
 		} else {
 			if prev, seen := r.maxTs[svc.Seed]; seen && sub.serverTs <= prev {
 				r.viol("timestamp-not-increasing", "register", fmt.Sprintf("timestamp %d handed out after %d (same seed)", sub.serverTs, prev))
+			} else if sub.serverTs <= r.lastTs {
+				// only the loss of the database starts the timestamps over
+				site := "register"
+				if r.restartedSinceAdd {
+					site = "register-after-restart"
+				}
+				r.viol("timestamp-not-increasing", site, fmt.Sprintf("timestamp %d handed out after %d and the server has not been reset in between", sub.serverTs, r.lastTs))
 			}
+			if sub.serverTs > r.lastTs {
+				r.lastTs = sub.serverTs
+			}
+			r.restartedSinceAdd = false
 			if sub.serverTs > r.maxTs[svc.Seed] {
 				r.maxTs[svc.Seed] = sub.serverTs
 			}
@@ -748,7 +790,9 @@ func (r *run) doSubmit(st step) error {
 				r.viol("retraction-not-by-signer", "validateRetraction", fmt.Sprintf("retraction of %q accepted from %s, which has no listed presentation with that id", target, r.subjectOf(signer)))
 			}
 		}
-		if e := st.str("e"); e == "short" && !r.ticked && r.hasTick {
+		// (a defective submission that fixes its own, long validity -- "outlive", "toolong" -- and is accepted by a
+		// defective server is not one the Tick has to wait for)
+		if e := st.str("e"); e == "short" && !r.ticked && r.hasTick && sub.exp <= time.Now().Unix()+shortValidity+1 {
 			r.shortExp = append(r.shortExp, sub.exp)
 		}
 		r.known[raw] = sub
@@ -802,7 +846,75 @@ func (r *run) doReset() error {
 		return err
 	}
 	r.srvEvents++
+	r.lastTs, r.restartedSinceAdd = 0, false
 	r.log("srvreset", map[string]any{})
+	return nil
+}
+
+// unexpired: what the server lists that has not expired, raw -> timestamp.
+func unexpired(list []listed, now int64) map[string]int {
+	out := map[string]int{}
+	for _, l := range list {
+		if l.info.Exp > now {
+			out[l.raw] = l.ts
+		}
+	}
+	return out
+}
+
+// doServerRestart: the server process stops and starts again on its database. A restart is none of the events that
+// change a list (register / refresh / retract / expire / reset): the new incarnation must list what its predecessor
+// listed and must go on counting where the predecessor stopped.
+func (r *run) doServerRestart() error {
+	if r.pollPos == "q1" {
+		return fmt.Errorf("server restart while a get is executing")
+	}
+	now := r.settleClock()
+	before, svcB, ok := r.observeServer()
+	if !ok {
+		return nil
+	}
+	if err := r.l.restartServer(); err != nil {
+		return err
+	}
+	r.res.Restarts++
+	r.restartedSinceAdd = true
+	after, svcA, ok := r.observeServer()
+	if !ok {
+		return nil
+	}
+	r.res.Checks++
+	if svcA.Ts < svcB.Ts {
+		r.viol("timestamp-not-increasing", "restart", fmt.Sprintf("the service timestamp went back from %d to %d when the server was restarted on its database (seed before %q, after %q)", svcB.Ts, svcA.Ts, svcB.Seed, svcA.Seed))
+	}
+	lb, la := unexpired(before, now), unexpired(after, now)
+	r.res.Checks++
+	if !reflect.DeepEqual(lb, la) {
+		r.viol("restart-changes-list", "server", fmt.Sprintf("the server listed %d unexpired entries before it was restarted on its database and %d afterwards (or under other timestamps)", len(lb), len(la)))
+	}
+	r.log("srvrestart", map[string]any{"ts": svcA.Ts, "seed": r.seedNo(svcA.Seed, true), "n": len(after), "live": subjectsOf(r, liveOf(after, time.Now().Unix()))})
+	return nil
+}
+
+// doClientRestart: the client process stops between two polls and starts again on its database.
+func (r *run) doClientRestart() error {
+	if r.pollPos != "" {
+		return fmt.Errorf("client restart while a poll is at %q", r.pollPos)
+	}
+	if err := r.l.restartClient(); err != nil {
+		return err
+	}
+	r.res.Restarts++
+	row, err := serviceRow(r.l.cli)
+	if err != nil {
+		return err
+	}
+	cv, ok := r.observeClient(time.Now().Unix())
+	if !ok {
+		return nil
+	}
+	r.log("clirestart", map[string]any{"cts": row.Ts, "cseed": r.seedNo(row.Seed, false), "n": len(cv.rows),
+		"live": subjectsOf(r, cv.live), "search": subjectsOf(r, cv.search)})
 	return nil
 }
 
@@ -1069,6 +1181,10 @@ func (l *lab) runScript(in *input, sc script) *result {
 			err = r.doTick()
 		case "ServerReset":
 			err = r.doReset()
+		case "ServerRestart":
+			err = r.doServerRestart()
+		case "ClientRestart":
+			err = r.doClientRestart()
 		case "PollFirst":
 			err = r.pollFirst()
 		case "PollSecond":
